@@ -687,4 +687,110 @@ theorem updateFree_length (gpus : List SGpu) (runners : List Runner) :
   unfold updateFree
   split <;> simp
 
+/-! ## Part 4: ByLibrary, EstimatedVRAMByGPU -/
+
+def groupTotal (gs : List Group) : Nat := (gs.map (fun g => g.members.length)).sum
+
+theorem insertGroup_total (x : FGpu) : ∀ (gs : List Group),
+    groupTotal (insertGroup x gs) = groupTotal gs + 1 := by
+  intro gs
+  induction gs with
+  | nil => simp [insertGroup, groupTotal]
+  | cons g rest ih =>
+    simp only [insertGroup]
+    split
+    · simp [groupTotal]; omega
+    · simp only [groupTotal, List.map_cons, List.sum_cons] at ih ⊢
+      omega
+
+theorem insertGroup_nonempty (x : FGpu) : ∀ (gs : List Group),
+    (∀ g ∈ gs, g.members ≠ []) → ∀ g ∈ insertGroup x gs, g.members ≠ [] := by
+  intro gs
+  induction gs with
+  | nil => intro _ g hg; simp [insertGroup] at hg; subst hg; simp
+  | cons g0 rest ih =>
+    intro h g hg
+    simp only [insertGroup] at hg
+    split at hg
+    · simp only [List.mem_cons] at hg
+      rcases hg with rfl | hg
+      · simp
+      · exact h g (by simp [hg])
+    · simp only [List.mem_cons] at hg
+      rcases hg with rfl | hg
+      · exact h _ (by simp)
+      · exact ih (fun g' hg' => h g' (by simp [hg'])) g hg
+
+theorem insertGroup_keys (x : FGpu) : ∀ (gs : List Group),
+    (∀ g ∈ gs, ∀ m ∈ g.members, m.key = g.key) →
+    ∀ g ∈ insertGroup x gs, ∀ m ∈ g.members, m.key = g.key := by
+  intro gs
+  induction gs with
+  | nil =>
+    intro _ g hg m hm
+    simp [insertGroup] at hg
+    subst hg
+    simp at hm
+    subst hm
+    rfl
+  | cons g0 rest ih =>
+    intro h g hg m hm
+    simp only [insertGroup] at hg
+    split at hg
+    · rename_i hk
+      simp only [List.mem_cons] at hg
+      rcases hg with rfl | hg
+      · simp only [List.mem_append, List.mem_singleton] at hm
+        rcases hm with hm | rfl
+        · exact h g0 (by simp) m hm
+        · simp only [beq_iff_eq] at hk; exact hk.symm
+      · exact h g (by simp [hg]) m hm
+    · simp only [List.mem_cons] at hg
+      rcases hg with rfl | hg
+      · exact h _ (by simp) m hm
+      · exact ih (fun g' hg' => h g' (by simp [hg'])) g hg m hm
+
+theorem byLibrary_spec (l : List FGpu) :
+    groupTotal (byLibrary l) = l.length ∧
+    (∀ g ∈ byLibrary l, g.members ≠ []) ∧
+    (∀ g ∈ byLibrary l, ∀ m ∈ g.members, m.key = g.key) := by
+  unfold byLibrary
+  suffices h : ∀ (l : List FGpu) (acc : List Group),
+      (∀ g ∈ acc, g.members ≠ []) → (∀ g ∈ acc, ∀ m ∈ g.members, m.key = g.key) →
+      groupTotal (l.foldl (fun acc x => insertGroup x acc) acc) = groupTotal acc + l.length ∧
+      (∀ g ∈ l.foldl (fun acc x => insertGroup x acc) acc, g.members ≠ []) ∧
+      (∀ g ∈ l.foldl (fun acc x => insertGroup x acc) acc, ∀ m ∈ g.members, m.key = g.key) by
+    have := h l [] (by simp) (by simp)
+    simpa [groupTotal] using this
+  intro l
+  induction l with
+  | nil => intro acc h1 h2; exact ⟨by simp, h1, h2⟩
+  | cons x rest ih =>
+    intro acc h1 h2
+    simp only [List.foldl_cons, List.length_cons]
+    have := ih (insertGroup x acc) (insertGroup_nonempty x acc h1) (insertGroup_keys x acc h2)
+    rw [insertGroup_total] at this
+    refine ⟨by omega, this.2.1, this.2.2⟩
+
+/-- `EstimatedVRAMByGPU` is 0 or the size planned on a GPU with that ID -/
+theorem vramByGPU_spec : ∀ (ids sizes : List Nat) (id : Nat),
+    vramByGPU ids sizes id = 0 ∨
+    ∃ k : Nat, ids[k]? = some id ∧ sizes[k]? = some (vramByGPU ids sizes id) := by
+  intro ids
+  induction ids with
+  | nil => intro sizes id; left; simp [vramByGPU]
+  | cons i is ih =>
+    intro sizes id
+    cases sizes with
+    | nil => left; simp [vramByGPU]
+    | cons s ss =>
+      simp only [vramByGPU]
+      split
+      · rename_i h
+        right
+        exact ⟨0, by simp only [beq_iff_eq] at h; simp [h], by simp⟩
+      · rcases ih ss id with h | ⟨k, h1, h2⟩
+        · left; exact h
+        · right; exact ⟨k + 1, by simpa using h1, by simpa using h2⟩
+
 end OllamaVerif.Memory
